@@ -5,7 +5,7 @@ balance per substance).  Requests are generated constructively (pick the aliquot
 compute the target concentration and total from the resulting reference mixture)."""
 from __future__ import annotations
 
-from .common import shard, run_cases, BASE_ASSUMPTIONS
+from .common import shard, run_cases, BASE_ASSUMPTIONS, repo_suite, repo_suite_job
 
 ID = 'C12'
 LEVEL = 'exploration'
@@ -35,12 +35,21 @@ def required_buckets(tier):
 
 
 def plan(tier, seed):
+    jobs = _plan(tier, seed)
+    if tier != 'quick' or False:
+        jobs = jobs + repo_suite_job()
+    return jobs
+
+
+def _plan(tier, seed):
     if tier == 'quick':
         return shard('constructive', 700, 10)
     return shard('constructive', 25000, 32)
 
 
 def run_job(job):
+    if job['kind'] == 'repo_suite':
+        return run_cases(job, repo_suite)
     return run_cases(job, constructive)
 
 
